@@ -12,7 +12,8 @@ from ..core import Violation
 ID = 'C12'
 T = {'1m': 1, '3m': 3, '5m': 5, '15m': 15, '30m': 30, '1h': 60}
 
-MIN = {'U': (0, 1, 0, 0), 'D': (0, -1, 0, 0), 'u': (0, 1, 1, 1), 'd': (0, -1, 1, 1), 'o': (0, 0, 1, 1)}
+MIN = {'U': (0, 1, 0, 0), 'D': (0, -1, 0, 0), 'u': (0, 1, 1, 1), 'd': (0, -1, 1, 1), 'o': (0, 0, 1, 1),
+       'G': (-1, 2, 0, 0), 'g': (1, -2, 0, 0)}     # G: opens one tick below the previous close and rallies one tick above it
 
 
 def block(pattern, k):
@@ -29,6 +30,10 @@ def block(pattern, k):
         return [MIN['D']] * h + [MIN['U']] * h + [MIN['o']] * (k - 2 * h)
     if pattern == 'flat':
         return [MIN['o']] * k
+    if pattern == 'gz':
+        return [MIN['G'] if i % 2 == 0 else MIN['g'] for i in range(k)]
+    if pattern == 'zg':
+        return [MIN['g'] if i % 2 == 0 else MIN['G'] for i in range(k)]
     if pattern == 'zig':
         return [MIN['u'] if i % 2 == 0 else MIN['d'] for i in range(k)]
     raise ValueError(pattern)
@@ -49,15 +54,16 @@ def programs(tick, unit, tf, kind):
 def configs(quick):
     """(trading tf, data routes, kind, word generator, number of programs used)"""
     out = []
-    P4 = ['up', 'down', 'spike', 'dip']
-    P5 = P4 + ['zig']
+    P4 = ['up', 'down', 'gz', 'zg']
+    P4b = ['up', 'down', 'spike', 'dip']
+    P5 = P4 + ['spike', 'dip', 'zig']
     if quick:
         out.append(('1m', [], 'futures', ('minutes', 'UDu', 5), 6))
         out.append(('1m', [], 'spot', ('minutes', 'UDu', 5), 3))
-        out.append(('3m', [], 'futures', ('minutes', 'UDud', 6), 3))
+        out.append(('3m', [], 'futures', ('minutes', 'UDGg', 6), 3))
         out.append(('3m', [], 'spot', ('minutes', 'UDud', 6), 1))
         out.append(('5m', [], 'futures', ('blocks', 5, P4, 3), 6))
-        out.append(('5m', [], 'spot', ('blocks', 5, P4, 3), 3))
+        out.append(('5m', [], 'spot', ('blocks', 5, P4b, 3), 3))
         out.append(('3m', [['BTC-USDT', '15m']], 'futures', ('blocks', 3, P4, 5), 3))
         out.append(('15m', [['BTC-USDT', '5m']], 'futures', ('blocks', 5, P4[:3], 6), 3))
         out.append(('15m', [], 'spot', ('blocks', 5, P4[:3], 6), 3))
@@ -66,7 +72,7 @@ def configs(quick):
         return out
     for kind, n in (('futures', 6), ('spot', 3)):
         out.append(('1m', [], kind, ('minutes', 'UDud', 7), n))
-        out.append(('3m', [], kind, ('minutes', 'UDudo', 6), n))
+        out.append(('3m', [], kind, ('minutes', 'UDuGg', 6), n))
         out.append(('5m', [], kind, ('blocks', 5, P5, 4), n))
     out.append(('3m', [['BTC-USDT', '15m']], 'futures', ('blocks', 3, P5, 5), 6))
     out.append(('15m', [['BTC-USDT', '5m']], 'futures', ('blocks', 5, P4, 6), 6))
